@@ -4,16 +4,18 @@ import time
 from vlib import Scratch, inject_overlay, Inconclusive, log, write_evidence
 import kprop
 import overlaycommon as O
+import tablecommon as T
 
 PID = "C06"
 STATIC = {
     "coverage": {
         "functions_encoded": ["<std::time::Instant as tarpc::util::TimeUntil>::time_until",
-                              "timer-arming expression of tarpc::server::in_flight_requests::InFlightRequests::start_request (textual slice) incl. util::MAX_TIMER_DURATION"],
-        "outside_claim": ["that poll_expired aborts the handler and nothing is transmitted afterwards; handler-completion-vs-expiry ordering; that other requests are unaffected; the request limiter's polling order — the server channel, Abortable and the real DelayQueue are out of CBMC's reach (DESIGN §1, §4)",
+                              "timer-arming expression of tarpc::server::in_flight_requests::InFlightRequests::start_request (textual slice) incl. util::MAX_TIMER_DURATION"] + T.FUNCS_S,
+        "outside_claim": ["that NOTHING IS TRANSMITTED for an expired request and WHEN the channel polls the table (BaseChannel::poll_next / start_send, the limiter's polling order): the server channel is out of CBMC's reach; the table-level harness decides that a poll aborts exactly the handlers whose deadline has passed and leaves the others alone",
+                          "the real DelayQueue (contract model instead)",
                           "deadline spans beyond 365 days (timer clamped, see C16/F3)"],
     },
-    "assumptions": O.OVERLAY_ASSUMPTIONS,
+    "assumptions": O.OVERLAY_ASSUMPTIONS + T.ASSUMPTIONS,
 }
 
 
@@ -28,5 +30,11 @@ def main(tier):
             return 2
         recs, viol, known, inc, wall = kprop.decide(PID, tier, s, "overlay", O.C06, cwd=os.path.join(s.repo, "tarpc"), timeout_s=1800,
                                                     replay_kw={"as_test": [], "rustflags": "--cfg verif_replay"})
+        # the server's in-flight table: expiry aborts exactly the due handlers, never early, others unaffected
+        try:
+            r2, v2, k2, i2, w2 = T.run_tables(PID, tier, s, server=["sift_steps3"], timeout_s=3000, harness_timeout=1500)
+            recs.update(r2); viol += v2; known += k2; inc += i2; wall += w2
+        except Inconclusive as e:
+            inc.append(("server-table-overlay", str(e)))
         return kprop.finish(PID, tier, t0, recs, viol, known, inc, STATIC,
                             {"source_digest": s.src_digest, "kani_wall_s": round(wall, 1), "extracted_from_source": ext})
